@@ -411,6 +411,7 @@ func main() {
 		})
 	}
 	h := sha256.New()
+	fmt.Fprintf(h, "repo=%s\x00", *repo) // overlay keys are absolute paths below the repository root
 	for _, g := range gens {
 		fmt.Fprintf(h, "%s\x00%d\x00", g.rel, len(g.b))
 		h.Write(g.b)
